@@ -13,6 +13,7 @@ Definition nosp_of (dst : buf) : bool :=
   | [] => true
   | C c :: _ => Ascii.eqb c "(" || Ascii.eqb c "," || Ascii.eqb c " "
   | Num _ :: _ => false
+  | Bad :: _ => false
   end.
 
 Definition text_empty (nosp : bool) : list ch :=
@@ -72,9 +73,10 @@ Proof. unfold app_str. apply rev_append_rev. Qed.
 
 Lemma w_empty_spec dst : w_empty dst = rev (text_empty (nosp_of dst)) ++ dst.
 Proof.
-  unfold w_empty, text_empty. destruct dst as [|[c|b] r]; cbn [nosp_of].
+  unfold w_empty, text_empty. destruct dst as [|[c|b|] r]; cbn [nosp_of].
   - reflexivity.
   - destruct (Ascii.eqb c "(" || Ascii.eqb c "," || Ascii.eqb c " "); reflexivity.
+  - reflexivity.
   - reflexivity.
 Qed.
 
@@ -201,19 +203,16 @@ Lemma wkt_zero_unfixed_refuted_lemma :
 Proof. exists []. discriminate. Qed.
 
 (* ================================================================== Part 2: lexing the text *)
-(* a character that ends an identifier or number and is a token (or blank) by itself *)
-Definition delim (c : ascii) : bool :=
-  negb (is_letter c) && negb (is_digit c) && negb (code c =? 0) && negb (128 <=? code c) &&
-  negb (Ascii.eqb c ".").
+(* delim (Model/WKT.v): a character that ends an identifier or number and is a token (or blank) by itself *)
 Definition sep_tok (c : ascii) : list tok := if is_ws c then [] else [T [c]].
 (* the rest of the text does not continue a word or number *)
 Definition sd (r : list ch) : Prop :=
-  match r with [] => True | C c :: _ => delim c = true | Num _ :: _ => False end.
+  match r with [] => True | C c :: _ => delim c = true | Num _ :: _ => False | Bad :: _ => True end.
 Definition sdl (b : list ch) : Prop :=
   match b with C c :: _ => delim c = true | _ => False end.
 
 Lemma sd_app b r : sdl b -> sd (b ++ r).
-Proof. destruct b as [|[c|n] b']; cbn; tauto. Qed.
+Proof. destruct b as [|[c|n|] b']; cbn; tauto. Qed.
 
 Lemma lex_delim cur c r :
   delim c = true ->
@@ -228,10 +227,11 @@ Qed.
 Lemma lex_flush cur r :
   sd r -> lex_go cur r = (do ts <- lex_go [] r; Ok (flush cur ++ ts)).
 Proof.
-  destruct r as [|[c|n] r']; cbn [sd]; intros H; [|
-    |contradiction].
+  destruct r as [|[c|n|] r']; cbn [sd]; intros H; [|
+    |contradiction|].
   - cbn. rewrite app_nil_r. reflexivity.
   - rewrite !lex_delim by exact H. destruct (lex_go [] r'); reflexivity.
+  - reflexivity.
 Qed.
 
 Lemma lex_letters w : forallb is_letter w = true ->
@@ -266,7 +266,7 @@ Lemma lexes_num b : lexes [Num b] (toks_num b).
 Proof.
   intros r tr Hsd Hr. cbn [app lex_go].
   assert (Hg : glue_after r = false).
-  { destruct r as [|[c|n] r']; cbn [sd glue_after] in *; [reflexivity| |contradiction].
+  { destruct r as [|[c|n|] r']; cbn [sd glue_after] in *; [reflexivity| |contradiction|reflexivity].
     unfold delim in Hsd. destruct (is_letter c); [discriminate|]. destruct (is_digit c); [discriminate|].
     destruct (Ascii.eqb c "."); [rewrite !andb_false_r in Hsd; discriminate|]. reflexivity. }
   rewrite Hg, Hr. unfold toks_num. destruct (b <? wk_two63); reflexivity.
@@ -565,7 +565,8 @@ Proof.
   - eapply tparses_bind_nil; [apply tparses_emptyk|]. apply tparses_ret.
 Qed.
 
-Lemma toks_num_head b : exists t r, toks_num b = t :: r /\ tok_is (L "(") t = false /\ tok_is (L "EMPTY") t = false.
+Lemma toks_num_head b : exists t r, toks_num b = t :: r /\ tok_is (L "(") t = false /\ tok_is (L "EMPTY") t = false /\
+  (forall x, t_peek (t :: x) = Ok (t, t :: x)).
 Proof. unfold toks_num. destruct (b <? wk_two63); eexists; eexists; repeat split. Qed.
 
 Lemma tparses_mp_point ct c bare :
@@ -576,11 +577,11 @@ Proof.
   destruct c as [v|]; intros Hf Hk.
   - destruct bare.
     + intros rest. unfold next_mp_point. unfold tbind at 1.
-      destruct (toks_num_head (vx v)) as (t & r & E & E1 & E2).
+      destruct (toks_num_head (vx v)) as (t & r & E & E1 & E2 & Epk).
       assert (Ev : exists r', toks_vtx ct v = t :: r').
       { unfold toks_vtx. rewrite E. eexists. reflexivity. }
       destruct Ev as [r' Ev].
-      assert (Hpk : t_peek (toks_vtx ct v ++ rest) = Ok (t, toks_vtx ct v ++ rest)) by (rewrite Ev; reflexivity).
+      assert (Hpk : t_peek (toks_vtx ct v ++ rest) = Ok (t, toks_vtx ct v ++ rest)) by (rewrite Ev; apply Epk).
       rewrite Hpk, E1, E2.
       pose proof (tparses_point ct v Hf Hk) as Hp.
       apply (tparses_bind_nil (next_point ct) _ _ v _ Hp). apply tparses_ret.
@@ -898,7 +899,7 @@ Qed.
 
 Lemma sd_glue R : sd R -> glue_after R = false /\ (match R with Num _ :: _ => true | _ => false end) = false.
 Proof.
-  destruct R as [|[c|n] R']; cbn [sd glue_after]; intros H; [auto| |contradiction]. split; [|reflexivity].
+  destruct R as [|[c|n|] R']; cbn [sd glue_after]; intros H; [auto| |contradiction|auto]. split; [|reflexivity].
   unfold delim in H. destruct (is_letter c); [discriminate|]. destruct (is_digit c); [discriminate|].
   destruct (Ascii.eqb c "."); [rewrite !andb_false_r in H; discriminate|]. reflexivity.
 Qed.
@@ -912,7 +913,7 @@ Lemma punct_shape t :
   tok_wf t = true -> tok_alnum_start t = false -> tok_dot t = false ->
   exists c, t = T [c] /\ delim c = true /\ is_ws c = false.
 Proof.
-  destruct t as [[|c l]|b]; cbn [tok_wf tok_alnum_start tok_dot]; try discriminate.
+  destruct t as [[|c l]|b|]; cbn [tok_wf tok_alnum_start tok_dot]; try discriminate.
   intros Hwf Hs Hd. rewrite Hs in Hwf. destruct l; [|discriminate].
   exists c. split; [reflexivity|]. unfold delim. rewrite Hs, Hd.
   apply andb_prop in Hwf. destruct Hwf as [Hwf H128]. apply andb_prop in Hwf. destruct Hwf as [Hwf H0].
@@ -943,7 +944,7 @@ Proof.
   apply andb_prop in H. destruct H as [H Hnext]. apply andb_prop in H. destruct H as [Hwf Hws].
   specialize (IH Hr). rewrite spell_cons. cbn [map fst].
   assert (HR : lex_go [] (map C w ++ spell [] r) = Ok (map fst r)) by (rewrite (lex_ws w _ Hws); exact IH).
-  destruct t as [[|c l]|b]; cbn [tok_wf] in Hwf; [discriminate| |].
+  destruct t as [[|c l]|b|]; cbn [tok_wf] in Hwf; [discriminate| | |discriminate].
   - destruct (is_letter c) eqn:Ec.
     + (* identifier *)
       cbn [tok_text map app lex_go]. rewrite Ec.
@@ -1031,7 +1032,7 @@ Qed.
 Lemma wkt_trailing_rejected_lemma sp (g : geomT N) t ts :
   spelling_ok sp -> wkt_dom g = true -> parse (toks sp g ++ t :: ts) = Err ESyntax.
 Proof.
-  intros Hsp Hd. unfold parse. rewrite (parse_toks_rest sp g (t :: ts) Hsp Hd). reflexivity.
+  intros Hsp Hd. unfold parse. rewrite (parse_toks_rest sp g (t :: ts) Hsp Hd). destruct t; reflexivity.
 Qed.
 
 (* the geometry obtained from the text equals the one obtained from the same geometry's WKB *)
@@ -1090,9 +1091,15 @@ Proof.
 Qed.
 
 Lemma resp_next : resp teq t_next t_next.
-Proof. intros ts ts' H. destruct H; cbn; auto. Qed.
+Proof.
+  intros ts ts' H. destruct H as [|x y l l' Hxy Hl]; cbn; auto.
+  destruct Hxy as [[]|]; cbn; auto using teq_refl, teq_case.
+Qed.
 Lemma resp_peek : resp teq t_peek t_peek.
-Proof. intros ts ts' H. destruct H; cbn; auto. split; [assumption|constructor; assumption]. Qed.
+Proof.
+  intros ts ts' H. destruct H as [|x y l l' Hxy Hl]; cbn; auto.
+  destruct Hxy as [[]|]; cbn; auto; (split; [auto using teq_refl, teq_case|constructor; auto using teq_refl, teq_case]).
+Qed.
 
 Lemma teq_tok_is x t t' :
   (reserved x = true \/ exists c, x = [c] /\ is_letter c = false) -> teq t t' -> tok_is x t = tok_is x t'.
@@ -1119,8 +1126,8 @@ Proof.
   unfold next_geom_tag. eapply resp_bind; [apply resp_next|]. intros t t' Ht.
   eapply resp_bind; [apply resp_peek|]. intros p p' Hp.
   rewrite (tok_is_Z _ _ Hp), (tok_is_M _ _ Hp), (tok_is_ZM _ _ Hp).
-  assert (Hn : match t with T l => map to_upper l | TNum _ => [] end =
-               match t' with T l => map to_upper l | TNum _ => [] end).
+  assert (Hn : match t with T l => map to_upper l | TNum _ => [] | TBad => [] end =
+               match t' with T l => map to_upper l | TNum _ => [] | TBad => [] end).
   { destruct Ht; [reflexivity|assumption]. }
   rewrite Hn.
   eapply (resp_bind teq); [|intros; apply resp_ret; reflexivity].
@@ -1268,5 +1275,6 @@ Proof.
   rewrite <- Hl. pose proof (resp_parse_geom (S (length ts)) ts ts' H) as Hp. unfold rel_out in Hp.
   destruct (parse_geom (S (length ts)) ts) as [[g r]|e|x], (parse_geom (S (length ts)) ts') as [[g' r']|e'|x'];
     try contradiction; try congruence.
-  destruct Hp as [-> Hr]. destruct Hr; reflexivity.
+  destruct Hp as [-> Hr]. destruct Hr as [|x y l l' Hxy Hll]; [reflexivity|].
+  destruct Hxy as [[]|]; reflexivity.
 Qed.
